@@ -187,7 +187,12 @@ def get_axis_positions_and_coords(ds, axis_name):
             cell_dim = cell_dim.replace(":", " ").split()
 
             # Find the face dimension that matches the node dimension
-            dim = [s[0] for s in enumerate(cell_dim) if node_dim_name in s[1]]
+            # (the node dimension is the 2nd token of each "cell: node (padding: type)" group)
+            dim = [
+                i
+                for i, token in enumerate(cell_dim)
+                if i % 4 == 1 and token == node_dim_name
+            ]
             if len(dim) != 1:
                 raise IndexError(
                     f"Found {len(dim)} face_dimensions corresponding to node_dimension '{node_dim_name}'. Expecting 1."
@@ -202,7 +207,12 @@ def get_axis_positions_and_coords(ds, axis_name):
             cell_dim = cell_dim.replace(":", " ").split()
 
             # Find the face dimension that matches the node dimension
-            dim = [s[0] for s in enumerate(cell_dim) if node_dim_name in s[1]]
+            # (the node dimension is the 2nd token of each "cell: node (padding: type)" group)
+            dim = [
+                i
+                for i, token in enumerate(cell_dim)
+                if i % 4 == 1 and token == node_dim_name
+            ]
             if len(dim) != 1:
                 raise IndexError(
                     f"Found {len(dim)} face_dimensions corresponding to node_dimension '{node_dim_name}'. Expecting 1."
